@@ -190,6 +190,9 @@ func GenString(t *rapid.T, cs Charset, label string) string {
 // Gen draws a value tree of container depth <= d. wrappers: Format/Link/File nodes may occur.
 func Gen(t *rapid.T, cs Charset, d int, wrappers bool) Tree {
 	k := rapid.IntRange(0, 11).Draw(t, "kind")
+	if d >= 2 && rapid.IntRange(0, 2).Draw(t, "preferContainer") != 0 {
+		k = rapid.IntRange(6, 9).Draw(t, "containerKind")
+	}
 	if d <= 0 && k >= 6 && k < 10 {
 		k = 0
 	}
